@@ -64,7 +64,10 @@ def gen_program(rng, K):
         for _ in range(rng.choice([1, 1, 2])):
             far = rng.randrange(nf) if rng.random() < 0.15 else rng.choice([j for j in range(nf) if j != i])
             trans.append({"far": far, "needs": [need() for _ in range(rng.choice([1, 1, 1, 2]))]})
-        frames.append({"guard": guarded and i > 0 and rng.random() < 0.6,
+        g = None
+        if guarded and i > 0 and rng.random() < 0.6:
+            g = "gate" if rng.random() < 0.55 else need()       # `let me if .gate >= 1` | `let me if <marker need>`
+        frames.append({"guard": g,
                        "enter": [wr()] if rng.random() < (0.15 if sparse else 0.4) else [],
                        "recur": [wr()] if rng.random() < 0.15 else [],
                        "exit": [wr()] if rng.random() < 0.2 else [],
@@ -107,8 +110,10 @@ def program_text(frames, K):
          "  framer test be active first F0"]
     for i, f in enumerate(frames):
         L.append("    frame F%d" % i)
-        if f["guard"]:
+        if f["guard"] == "gate":
             L.append("      let me if .gate >= 1")
+        elif f["guard"]:
+            L.append("      let me if " + need_text(f["guard"]))
         for w in f["enter"]:
             L.append("      " + put_text(w))
         if f["recur"]:
@@ -223,8 +228,9 @@ def ref_run(frames, script, K):
     R = Ref()
     entry = {}
     for fi, f in enumerate(frames):
-        for t in f["trans"]:
-            for n in t["needs"]:
+        # a `let` marker need gets its entry marker like any other, but never a transit marker
+        for n in [x for t in f["trans"] for x in t["needs"]] + ([f["guard"]] if isinstance(f["guard"], dict) else []):
+            for n in [n]:
                 if n["inf"] is not None:
                     fr = fi if n["inf"] == "me" else n["inf"]
                     entry.setdefault(fr, []).append((n["kind"], n["share"], key_of(fi, n)))
@@ -243,8 +249,10 @@ def ref_run(frames, script, K):
         else:
             for tr in frames[active]["trans"]:
                 # a transition whose target is refused by its entry guard has NO effect at all
-                if all(R.holds(n["kind"], n["share"], key_of(active, n)) for n in tr["needs"]) and \
-                        (not frames[tr["far"]]["guard"] or R.data[2][3] >= 1):
+                g = frames[tr["far"]]["guard"]
+                gok = True if not g else (R.data[2][3] >= 1 if g == "gate" else
+                                          R.holds(g["kind"], g["share"], key_of(tr["far"], g)))
+                if all(R.holds(n["kind"], n["share"], key_of(active, n)) for n in tr["needs"]) and gok:
                     for n in tr["needs"]:
                         R.reset(t, n["kind"], n["share"], key_of(active, n), "transit")
                     for w in frames[active]["exit"]:
@@ -283,7 +291,7 @@ def e_need(n):
 def e_prog(frames):
     out = [len(frames)]
     for f in frames:
-        out += ([1, 3, 3] if f["guard"] else [0])
+        out += [0] if not f["guard"] else ([1, 3, 3] if f["guard"] == "gate" else [2] + e_need(f["guard"]))
         out += e_wrs(f["enter"]) + e_wrs(f["recur"]) + e_wrs(f["exit"]) + [len(f["trans"])]
         for t in f["trans"]:
             out += [t["far"], len(t["needs"])]
@@ -321,8 +329,13 @@ Definition pneed : P nsyn :=
     pret {| n_kind := k; n_share := s; n_in := i; n_by := b |})))).
 Definition ptrans : P tsyn :=
   pbind pN (fun far => pbind (plist pneed) (fun ns => pret {| t_far := far; t_needs := ns |})).
-Definition pguard : P (option (Z * Z)) := fun l =>
-  match l with 0%Z :: r => Some (None, r) | 1%Z :: s :: f :: r => Some (Some (s, f), r) | _ => None end.
+Definition pguard : P (option guard) := fun l =>
+  match l with
+  | 0%Z :: r => Some (None, r)
+  | 1%Z :: s :: f :: r => Some (Some (GCmp s f), r)
+  | 2%Z :: r => pbind pneed (fun n => pret (Some (GMark n))) r
+  | _ => None
+  end.
 Definition pframe : P fsyn :=
   pbind pguard (fun g =>
   pbind (plist pwr) (fun e => pbind (plist pwr) (fun r => pbind (plist pwr) (fun x => pbind (plist ptrans) (fun t =>
